@@ -45,11 +45,13 @@ Proof. intros H. apply nth_error_Some. congruence. Qed.
 (* ---------- python vs SQL on scalars of one kind ---------- *)
 Lemma val_eq_scalar f w a b : same_kind a b = true -> sql_eq a b = tv_of_bool (val_eq f w a b).
 Proof. destruct a, b; simpl; try discriminate; destruct f; auto. Qed.
-Lemma cmp_agree w op a b : same_kind a b = true -> py_cmp w op a b = Ok (tv_true (sql_cmp op a b)) /\
-                                                   sql_cmp op a b = tv_of_bool (tv_true (sql_cmp op a b)).
+Lemma cmp_agree w op a b : ord_kind a b = true -> eqne op = false ->
+  py_cmp w op a b = Ok (tv_true (sql_cmp op a b)).
 Proof.
-  intros H. destruct a, b; simpl in H; try discriminate; destruct op; simpl;
-    rewrite ?tv_not_bool, ?tv_true_of_bool; auto.
+  intros H Ho. destruct a as [|x|x| |], b as [|y|y| |]; simpl in H; try discriminate; destruct op; try discriminate; simpl;
+    rewrite ?tv_not_bool, ?tv_true_of_bool; auto;
+    apply negb_true_iff in H; apply orb_false_iff in H; destruct H as [H1 H2];
+    rewrite ?H1, ?H2; simpl; rewrite ?tv_not_bool, ?tv_true_of_bool; auto.
 Qed.
 Lemma same_kind_sym a b : same_kind a b = same_kind b a.
 Proof. now destruct a, b. Qed.
@@ -91,10 +93,10 @@ Lemma mk_cmp_sound w op ea eb a b :
             forall env, eval_sx env ea = a -> eval_sx env eb = b -> py_cmp w op a b = Ok (tv_true (eval_pred env p)).
 Proof.
   intros Hca Hcb Ha Hb Hd Hbad. destruct ea as [ia aa|]; try discriminate.
-  assert (ORD : forall op', eqne op' = false -> same_kind a b = true ->
+  assert (ORD : forall op', eqne op' = false -> ord_kind a b = true ->
             forall env eb', eval_sx env (SCol ia aa) = a -> eval_sx env eb' = b ->
             py_cmp w op' a b = Ok (tv_true (eval_pred env (SCmp op' (SCol ia aa) eb')))).
-  { intros op' _ Hk env eb' E1 E2. cbn [eval_pred]. rewrite E1, E2. apply (proj1 (cmp_agree w op' a b Hk)). }
+  { intros op' Ho Hk env eb' E1 E2. cbn [eval_pred]. rewrite E1, E2. apply (cmp_agree w op' a b Hk Ho). }
   destruct Hcb as [Hcb | ->].
   - destruct eb as [ib ab|]; try discriminate.
     destruct op; simpl in Hd; cbn [mk_cmp is_col andb]; eexists; (split; [reflexivity|]); (split; [reflexivity|]);
